@@ -1,6 +1,7 @@
 package core
 
 import (
+	"fmt"
 	"go/ast"
 	"go/constant"
 	"go/token"
@@ -20,6 +21,8 @@ type BytePred struct {
 	P     *Program
 	Steps int
 	ctl   int // an unlabelled break or continue travelling to its loop
+	// OutOfRange describes the index expression that left a bound text (the fold fails there: the code would panic).
+	OutOfRange string
 	// Stores collects `T[i] = v` assignments to package-level tables made by interpreted
 	// statements (table-filling init loops with constant bounds).
 	Stores map[types.Object]map[int64]int64
@@ -348,6 +351,8 @@ func (bp *BytePred) evalRaw(info *types.Info, e ast.Expr, env bpEnv, depth int) 
 		}
 		if bs, bound := bp.Strings[obj]; bound {
 			if iv.I < 0 || iv.I >= int64(len(bs)) {
+				// the analysed code indexes beyond the text it was given: a panic at run time
+				bp.OutOfRange = fmt.Sprintf("%s[%d] with length %d", obj.Name(), iv.I, len(bs))
 				return bpVal{}, false
 			}
 			return bpVal{I: int64(bs[iv.I])}, true
